@@ -772,6 +772,7 @@ life!(c07_mp_view_o1, hk_c07_mp_view_o1, Runner<Disc<MpB, 1, true>, 1>, disconne
 // C10
 life!(c10_bc_sole_o1, hk_c10_bc_sole_o1, Runner<Add<BcB, false, 2, 2>, 1>, add_stream::<BcB, false, 1, 2, 2>(&LQ));
 life!(c10_bc_sole_o0, hk_c10_bc_sole_o0, Runner<Add<BcB, false, 1, 2>, 0>, add_stream::<BcB, false, 0, 1, 2>(&LQ));
+life!(c03_bc_addstream_o0_n1, hk_c03_bc_addstream_o0_n1, Runner<Add<BcB, false, 1, 2>, 0>, add_stream::<BcB, false, 0, 1, 2>(&LifeCfg { cap: 1, n: 1, pre_send: 1, pre_recv: 1, ..LQ }));
 life!(c10_bc_sib_o1, hk_c10_bc_sib_o1, Runner<Add<BcB, true, 2, 1>, 1>, add_stream::<BcB, true, 1, 2, 1>(&LifeCfg { budget: 3, per_site: 3, ..LQ }));
 // C11
 life!(c11_bc_drop_last_o1, hk_c11_bc_drop_last_o1, Runner<Rem<BcB, false>, 1>, remove_stream::<BcB, false, true, 1>(&LQ));
